@@ -453,7 +453,13 @@ class Ref:
             raise AssertionError("reference: operator outside the generated shapes")
         if k == "call":
             params, body, dchain, dfenv = fenv[e[1]]
-            args = [self.eval(x, chain, fenv) for x in e[2]]
+            # call by value, arguments strictly left to right: each argument is evaluated (and
+            # deep-copied: self.eval returns a fresh value) at ITS OWN point in that order, so a
+            # later argument whose evaluation mutates the array an earlier argument named does not
+            # reach the earlier parameter, and an earlier mutation is seen by a later argument
+            args = []
+            for x in e[2]:
+                args.append(self.eval(x, chain, fenv))
             assert len(args) == len(params)
             psc = {}
             for p, (v, prov) in zip(params, args):
@@ -862,12 +868,170 @@ class ProgGen:
                      ("push", (g, []), ("var", kk)), call, ("shout", ("var", g)),
                      ("ret", ("call", caller, [("var", g), ("bin", "minus", ("var", kk), N(1))]))])
             use = ("call", caller, [init, N(r.randint(0, 2))])
+        self.last_shape = "shadow"
         self.note("shadow_" + variant)
         if variant == "param" and r.random() < 0.5:
             self.funcs.append({"name": caller, "params": [g], "need": [0], "kind": "shadow"})
         d = self.fresh("d")
         tail = [("make", d, use), ("shout", ("var", d))] if r.random() < 0.5 else [("shout", use)]
         return defs + [cdef] + tail + self.shout_all((g,))
+
+    # ---- call by value x argument evaluation order: f(.., g, .., m(), ..) where evaluating another
+    #      argument (a call of a function writing g, or g.pop() itself) mutates the array that an
+    #      earlier / later argument names; every parameter must hold the value of ITS evaluation point
+    def arg_order_call(self):
+        r = self.r
+        cands = [a for a in self.arrays() if self.state[a] and vsize(self.state[a]) <= 80]
+        if not cands:
+            return None
+        g0 = r.choice(cands)
+        vg = self.state[g0]
+        wrap = r.random() < 0.25          # the array is a function local captured by nested functions
+        g = self.fresh("l") if wrap else g0
+        mname, rname = self.fresh("f"), self.fresh("f")
+        # the mutator: every mutation form, through a captured variable
+        k = r.random()
+        others = [a for a in self.small_arrays() if a != g0]
+        if k < 0.4:
+            mb = self.chain_mutation(g, vg)
+            form = "chain"
+        elif k < 0.8:
+            mb = self.mutation(g, vg)
+            form = "any"
+        elif others and k < 0.9:
+            mb = [("set", g, ("var", r.choice(others)))]
+            form = "reassign"
+        else:
+            mb = [("set", g, self.arr_lit(1))]
+            form = "reassign"
+        if not mb:
+            return None
+        ret = r.choice(["len", "arr", "num"])
+        mret = {"len": ("len", ("var", g)), "arr": ("var", g), "num": N(r.randint(0, 9))}[ret]
+        mdef = ("fun", mname, [], mb + [("ret", mret)])
+        # argument positions
+        n = r.choice([2, 2, 3, 3, 4])
+        kinds = [None] * n
+        pos = r.sample(range(n), 2)
+        kinds[pos[0]] = r.choice(["var", "var", "var", "idx"])
+        kinds[pos[1]] = r.choice(["mcall", "mcall", "mcall", "popexpr"])
+        for i in range(n):
+            if kinds[i] is None:
+                kinds[i] = r.choice(["var", "idx", "mcall", "popexpr", "lit", "lit"])
+        args, is_arr = [], []
+        for kd in kinds:
+            if kd == "var":
+                args.append(("var", g))
+                is_arr.append(True)
+            elif kd == "idx":
+                eps = self.elem_paths(vg)
+                pth = r.choice(eps)
+                args.append(self.chain_expr(g, pth))
+                is_arr.append(False)
+            elif kd == "mcall":
+                args.append(("call", mname, []))
+                is_arr.append(ret == "arr" and form != "reassign")
+            elif kd == "popexpr":
+                args.append(("pop", (g, self.idx_exprs(self.pick_deep(self.array_paths(vg))))))
+                is_arr.append(False)
+            else:
+                args.append(self.scalar())
+                is_arr.append(False)
+        params = ["%sp%d" % (rname, i) for i in range(n)]
+        rb = [("shout", ("var", q)) for q in params]
+        for q, ia in zip(params, is_arr):
+            if ia and r.random() < 0.7:
+                rb += self.mutation_unknown(q) + [("shout", ("var", q))]
+        rb += [("shout", ("var", g)), ("ret", ("arr", [("var", q) for q in params]))]
+        rdef = ("fun", rname, params, rb)
+        call = ("call", rname, args)
+        self.last_shape = "argorder"
+        self.note("argorder_%s_%s%s" % (form, "mut_after" if pos[1] > pos[0] else "mut_before", "_wrapped" if wrap else ""))
+        for kd in set(kinds):
+            self.note("argorder_arg_" + kd)
+        if wrap:
+            wname = self.fresh("f")
+            d = self.fresh("d")
+            wb = [("make", g, self.lit_of(vg)), mdef, rdef, ("make", d, call), ("shout", ("var", d)), ("shout", ("var", g))]
+            if r.random() < 0.5:
+                wb += [("shout", ("call", rname, list(reversed(args)) if n == len(args) else args)), ("shout", ("var", g))]
+            wb += [("ret", ("var", g))]
+            return [("fun", wname, [], wb), ("shout", ("call", wname, []))] + self.shout_all((g0,))
+        d = self.fresh("d")
+        tail = [("make", d, call), ("shout", ("var", d))] if r.random() < 0.5 else [("shout", call)]
+        return [mdef, rdef] + tail + self.shout_all((g0,))
+
+    # ---- nested rows of a PARAMETER grown inside the callee (loop / nested call / recursion), with
+    #      frame churn between the pushes and the reads; the caller's argument must not change
+    def row_growth_call(self):
+        r = self.r
+        t = self.fresh("a")
+
+        def row():
+            return ("arr", [self.scalar() for _ in range(r.randint(0, 3))])
+        depth3 = r.random() < 0.4
+        if depth3:
+            shape = [r.randint(1, 3) for _ in range(r.randint(1, 3))]
+            lit = ("arr", [("arr", [row() for _ in range(m)]) for m in shape])
+            paths = [(i, j) for i, m in enumerate(shape) for j in range(m)] + [(i,) for i in range(len(shape))]
+        else:
+            m = r.randint(1, 4)
+            lit = ("arr", [row() for _ in range(m)])
+            paths = [(i,) for i in range(m)]
+        grow = r.sample(paths, min(len(paths), r.randint(1, 3)))
+        f = self.fresh("f")
+        p, n, i, sc = f + "p", f + "n", f + "i", f + "s"
+        variant = r.choice(["loop", "loop", "nested", "rec"])
+        helper = None
+        if variant == "nested":
+            helper = self.fresh("f")
+            hx = helper + "x"
+            hdef = ("fun", helper, [hx], [("make", helper + "t", ("arr", [("var", hx), ("arr", [("var", hx), self.scalar()])])),
+                                          ("ret", r.choice([("var", helper + "t"), ("var", hx)]))])
+
+        def pushes(ix):
+            out = []
+            for pth in grow:
+                for _ in range(r.choice([1, 1, 2])):
+                    x = r.choice([ix, ("arr", [ix, self.scalar()]), self.scalar(), self.scalar()])
+                    if helper and r.random() < 0.6:
+                        x = ("call", helper, [ix])
+                    out.append(("push", (p, [N(c) for c in pth]), x))
+            return out
+
+        def churn(name, ix):
+            return [("make", name, ("arr", [ix, ("arr", [ix, self.scalar(), ix]), ("var", p) if r.random() < 0.4 else self.scalar()]))]
+
+        def read():
+            pth = r.choice(grow)
+            e = ("var", p)
+            for c in pth:
+                e = ("idx", e, N(c))
+            return ("shout", r.choice([e, ("var", p), ("idx", e, N(0)), ("len", e)]))
+        if variant == "rec":
+            cnt = r.choice([1, 2, 3, 5])
+            inner = [("set", i, ("bin", "add", ("var", i), N(1)))] + churn(sc, ("var", i)) + pushes(("var", i))
+            body = [("if", ("bin", "small pass", ("var", n), N(1)), [read(), ("ret", ("var", p))], None),
+                    ("make", i, N(0)), ("while", ("bin", "small pass", ("var", i), N(r.choice([1, 2, 4]))), inner)]
+            body += churn(sc + "2", ("var", n)) + [read(), ("ret", ("call", f, [("var", p), ("bin", "minus", ("var", n), N(1))]))]
+        else:
+            cnt = r.choice([1, 2, 4, 8, 16, 20])
+            inner = [("set", i, ("bin", "add", ("var", i), N(1)))] + churn(sc, ("var", i)) + pushes(("var", i))
+            if r.random() < 0.7:
+                inner += [("if", ("bin", "na", ("var", i), N(r.randint(1, max(1, cnt)))), [read()], None)]
+            if r.random() < 0.3:
+                inner += churn(sc + "3", ("var", i))
+            body = [("make", i, N(0)), ("while", ("bin", "small pass", ("var", i), ("var", n)), inner)]
+            body += churn(sc + "2", ("var", n)) + [read(), ("shout", ("var", p)), ("ret", ("var", p))]
+        defs = ([hdef] if helper else []) + [("fun", f, [p, n], body)]
+        out = self.fresh("d")
+        use = [("make", t, lit), ("make", out, ("call", f, [("var", t), N(cnt)])), ("shout", ("var", out)), ("shout", ("var", t))]
+        if r.random() < 0.4:
+            use += [("shout", ("call", f, [("var", out), N(r.choice([1, 2, 3]))])), ("shout", ("var", out)), ("shout", ("var", t))]
+        self.last_shape = "rowgrowth"
+        self.note("rowgrowth_%s_d%d" % (variant, 3 if depth3 else 2))
+        self.note("rowgrowth_pushes_%d" % cnt)
+        return defs + use + self.shout_all((t,))
 
     # ---- one top-level action -> candidate statement list
     def action(self, inner=False):
@@ -916,8 +1080,8 @@ class ProgGen:
             return [("push", (c, []), ("var", a))] + self.shout_all()
         if k < 0.56:
             return self.mutation(a, va) + self.shout_all()
-        if k < 0.74 and not inner and r.random() < 0.3:
-            sc = self.shadow_call()
+        if k < 0.74 and not inner and r.random() < 0.5:
+            sc = r.choice([self.shadow_call, self.arg_order_call, self.arg_order_call, self.row_growth_call, self.row_growth_call])()
             if sc:
                 return sc
         if k < 0.74 and not inner:
@@ -993,6 +1157,7 @@ class ProgGen:
         tries = actions = 0
         while actions < self.size and tries < self.size * 4:
             tries += 1
+            self.last_shape = None
             cand = self.action()
             if not cand:
                 continue
@@ -1013,6 +1178,8 @@ class ProgGen:
             self.items += cand
             self.state = st
             actions += 1
+            if self.last_shape:
+                self.note("kept_" + self.last_shape)
         if r.random() < 0.15:
             self.items += self.error_tail()
         return self.items
@@ -1188,6 +1355,44 @@ class AliasGen(langgen.Gen):
             self.stat("probe_shadow_rec")
         return lines + ["shout(%s)" % g]
 
+    def argorder_probe(self, g):
+        """call by value x evaluation order: `f(g, m())` / `f(m(), g)` where m() mutates the top-level
+        array g.  The parameter bound to `g` must be g's value at the moment that argument was
+        evaluated (left to right): the witness is a text snapshot of g taken before the call (g
+        first) or after it (m() first), compared with the text of the parameter made in the callee."""
+        r = self.r
+        self.probe_id += 1
+        k = self.probe_id
+        self.counter += 1
+        m, f = "am%d" % self.counter, "ar%d" % self.counter
+        j = r.randrange(3)
+        mut = r.choice(["%s[%d].push(%s)" % (g, j, self.lit_for(r.choice([langgen.NUM, langgen.STR, langgen.ARR]))),
+                        "%s[%d].reverse()" % (g, j), "%s[%d].pop()" % (g, j), "%s.reverse()" % g,
+                        "%s[%d][0] get %s" % (g, j, self.lit_for(r.choice([langgen.NUM, langgen.STR]))),
+                        "%s.push([%s])" % (g, self.lit_for(langgen.NUM)), "%s[%d] get [%s]" % (g, j, self.lit_for(langgen.STR))])
+        lines = ["do %s() start" % m, "  " + mut, "  return %s.len()" % g, "end"]
+        extra = r.random() < 0.4           # a third argument: the array again, after the mutation
+        if r.random() < 0.5:
+            # g first, then the mutating call: the parameter is g as it was BEFORE the call
+            lines += ["do %s(x, y%s) start" % (f, ", z" if extra else ""), "  return to_string(x)", "end",
+                      'shout("@<%d")' % k, "shout(to_string(%s))" % g, "shout(%s(%s, %s()%s))" % (f, g, m, ", " + g if extra else ""),
+                      'shout("@>%d")' % k]
+            self.stat("probe_argorder_var_first")
+        else:
+            # the mutating call first: the parameter is g as it is AFTER the call
+            lines += ["do %s(y, x%s) start" % (f, ", z" if extra else ""), "  return to_string(x)", "end",
+                      'shout("@<%d")' % k, "shout(%s(%s(), %s%s))" % (f, m, g, ", " + m + "()" if extra else "")]
+            if extra:
+                # a second mutating call after g was evaluated must not reach x either: undo is not
+                # possible, so take the witness from a copy made by the first mutator's caller instead
+                lines = lines[:-1] + ["make cw%d get [0]" % k,
+                                      "do %sw() start" % m, "  %s()" % m, "  cw%d get [to_string(%s)]" % (k, g), "  return 0", "end",
+                                      "shout(%s(%sw(), %s, %s()))" % (f, m, g, m), "shout(cw%d[0])" % k, 'shout("@>%d")' % k]
+            else:
+                lines += ["shout(to_string(%s))" % g, 'shout("@>%d")' % k]
+            self.stat("probe_argorder_call_first")
+        return lines + ["shout(%s)" % g]
+
     def stmt(self, ind):
         if self.r.random() < 0.22:
             p = self.probe(ind)
@@ -1210,6 +1415,8 @@ class AliasGen(langgen.Gen):
             lines += self.probe(0, target=w)
         for _ in range(self.r.randint(1, 2)):
             lines += self.shadow_probe(nm)
+        for _ in range(self.r.randint(1, 2)):
+            lines += self.argorder_probe(nm)
         for v in self.visible()[:4]:
             if v.ty in (langgen.NUM, langgen.STR, langgen.BOOL, langgen.ARR, langgen.NULL):
                 lines.append("shout(%s)" % v.name)
